@@ -215,6 +215,14 @@ Theorem C03_cleanup_reports_never_called : forall impl beh im mk0 mi s xs ss mk1
 Proof. exact cleanup_reports_never_called. Qed.
 Print Assumptions C03_cleanup_reports_never_called.
 
+(* The report does not depend on t having failed already (a non-fatal t.Errorf of the test, an
+   unexpected call, another mock's cleanup on the same t): erasing every such event from a history
+   changes no observation of this mock. *)
+Theorem C03_cleanup_reports_on_failed_t : forall impl beh im ws mk bs,
+  wrun impl beh im mk bs ws = wrun impl beh im mk bs (filter not_terrorf ws).
+Proof. exact failed_t_is_invisible. Qed.
+Print Assumptions C03_cleanup_reports_on_failed_t.
+
 Theorem C03_unmet_spec : forall mk e,
   unmet mk e = true <-> (e_total e = 0 /\ was_called mk e = false) \/ (0 < e_rep e)%Z.
 Proof. exact unmet_spec. Qed.
